@@ -100,6 +100,7 @@ def main():
     res = pmap(one, list(range(nshards)), jobs=NCPU)
     os.unlink(spec.name)
     seen = 0
+    scripted = [0]
     n_acc = n_rej = 0
     cellstate = set()
     samples = []
@@ -107,6 +108,11 @@ def main():
         if rc != 0:
             chk.inconclusive_("c06_accept shard %d exited %s: %s" % (shard, rc, err[-300:]))
         for ln in out.splitlines():
+            if ln.startswith("P "):
+                scripted[0] += 1
+                if ln.strip() != "P ok":
+                    chk.violation("verdict-depends-on-history|failed-gA-table-load", ln[2:].strip()[:300], {"detail": ln})
+                continue
             parts = ln.split(" ", 4)
             if len(parts) < 4 or not parts[0].isdigit():
                 continue
